@@ -456,6 +456,51 @@ def run(chk):
                     chk.ob("R4.fresh", C + "::get", "Some(item) only under age(item) <= cache_time_limit on that same item", fresh,
                            "a stale (or differently keyed) entry can be returned", where=b.where(sb))
                     chk.ob("R4.fresh", C + "::get", "the item returned is the one the key lookup found", from_lookup(prog, b, ix, item), f"{panics.short_desc(item)}")
+    # ---- the size limit is an invariant of the critical section that evicts *and* inserts: outside cache.rs the cache is changed through
+    # `set` only.  A handler that makes room under one write guard and inserts under another lets two misses interleave as
+    # make_room(A); make_room(B); insert(A); insert(B) — both insertions were measured against the same free space
+    n_out = 0
+    for p_, hb_ in sorted(prog.bodies.items()):
+        if not p_.startswith("humphrey_server::") or p_.startswith("humphrey_server::server::cache::") or "promoted" in p_:
+            continue
+        n_out += 1
+        for blk_, t_ in hb_.calls_to(r"server::cache::Cache::\w+$"):
+            tys_ = t_.get("arg_tys") or [""]
+            if tys_[0].startswith("&mut") and not t_["callee"].endswith("Cache::set"):
+                chk.ob("R6.one_critical_section", p_, f"the cache is changed from outside through Cache::set only [{t_['callee'].rsplit('::', 1)[-1]}]", False,
+                       f"{core.short(t_['callee'])} mutates the cache from the handler: eviction and insertion are no longer one critical section, so the total size can exceed the limit "
+                       "under two concurrent misses", where=hb_.where(blk_))
+        # the same through helpers that were inlined into the handler: a store to / mutable borrow of Cache.data or Cache.cache_size
+        for bi_, blk_ in enumerate(hb_.blocks):
+            if blk_.get("cleanup"):
+                continue
+            for st_ in blk_["stmts"]:
+                if "pl" not in st_ or "rv" not in st_:
+                    continue
+                rv_ = st_["rv"]
+                cands_ = [(st_["pl"], "assigned")]
+                if rv_.get("k") in ("ref", "rawptr") and rv_.get("mut", rv_.get("k") == "rawptr") and rv_.get("pl"):
+                    cands_.append((rv_["pl"], "mutably borrowed"))
+                for pl_, how_ in cands_:
+                    cur_ = hb_.local_ty(pl_["l"]) or ""
+                    for e_ in pl_["p"]:
+                        if e_[0] == "f":
+                            base_ = cur_
+                            while base_.startswith("&"):
+                                base_ = base_[1:].lstrip()
+                                if base_.startswith("mut "):
+                                    base_ = base_[4:]
+                            if base_.endswith("server::cache::Cache") and e_[1] in (ix["data"], ix["cache_size"]):
+                                chk.ob("R6.one_critical_section", p_, "the cache's queue and size are changed inside Cache::set only", False,
+                                       f"Cache.{'data' if e_[1] == ix['data'] else 'cache_size'} is {how_} in the handler (directly or through an inlined helper): eviction and insertion "
+                                       "are no longer one critical section", where=hb_.where(bi_))
+                            cur_ = e_[2]
+                        elif e_[0] == "d":
+                            if cur_.startswith("&"):
+                                cur_ = cur_[1:].lstrip()
+                                if cur_.startswith("mut "):
+                                    cur_ = cur_[4:]
+    chk.ob("R6.one_critical_section", "humphrey_server", "bodies outside cache.rs scanned for piecemeal cache mutation", n_out >= 10, f"{n_out} bodies")
     # ---- handlers
     h = prog.bodies.get("humphrey_server::server::static::inner_file_handler")
     chk.floor("inner_file_handler", 1 if h else 0, 1)
